@@ -26,6 +26,7 @@ but is designed to be extended with additional link statistics in the future.
 """
 import struct
 import time
+from threading import current_thread
 from threading import Event
 from threading import Thread
 
@@ -158,7 +159,10 @@ class Latency:
         """
         self._stop_event.set()
         if self._ping_thread_instance is not None:
-            self._ping_thread_instance.join()
+            # stop() is also reached from the ping thread itself, when the
+            # link fails while it is sending: a thread can not join itself
+            if self._ping_thread_instance is not current_thread():
+                self._ping_thread_instance.join()
             self._ping_thread_instance = None
 
     def _ping_thread(self, interval: float = 0.1) -> None:
